@@ -27,8 +27,8 @@ def _hist(prop, audits, profile, rule, nontrivial, deciding, anchors, quick, tho
     }
 
 
-Q = lambda cases, nops=(30, 60), **kw: dict(dict(cases=cases, nops=nops, audit_every=(3, 5, 8), time_cap=120, watchdog=300, min_cases=max(4, cases // 4)), **kw)
-T = lambda cases, nops=(40, 80, 150, 300), **kw: dict(dict(cases=cases, nops=nops, audit_every=(1, 3, 5, 10), time_cap=800, watchdog=1500, min_cases=max(8, cases // 4)), **kw)
+Q = lambda cases, nops=(30, 60), **kw: dict(dict(cases=cases, nops=nops, audit_every=(3, 5, 8), time_cap=120, watchdog=300, min_cases=max(4, cases // 4), wide=300), **kw)
+T = lambda cases, nops=(40, 80, 150, 300), **kw: dict(dict(cases=cases, nops=nops, audit_every=(1, 3, 5, 10), time_cap=800, watchdog=1500, min_cases=max(8, cases // 4), wide=700), **kw)
 
 PROPS = {}
 
@@ -313,7 +313,7 @@ PROPS["C14"] = {
     "nontrivial": lambda f: f["pages"] >= 6 and f["we"] >= 1 and f["links"] >= 1,
     "deciding_counters": ["C14_windows", "C14_calls_succeeded", "C14_calls_refused_with_library_error", "C14_iterator_steps"],
     "anchors": ["LRUTrie.follow_lru", "LRUTrie.lru_node", "Traph.get_potential_prefix", "LRUTrieNode.write", "LRUTrie.add_lru"],
-    "quick": dict(cases=64, nops=(15, 30), points=2, time_cap=150, watchdog=400, min_cases=16),
+    "quick": dict(cases=128, nops=(15, 30), points=2, time_cap=150, watchdog=400, min_cases=32),
     "thorough": dict(cases=900, nops=(20, 40, 80), points=3, time_cap=900, watchdog=1600, min_cases=150),
     "level": "exploration",
     "assumptions": ["the list of read-only methods is explicit (vt/battery.py); an unclassified public method makes the run inconclusive",
